@@ -29,7 +29,8 @@ def main():
     assert os.path.exists(diff) and os.path.exists(demo), (diff, demo)
     wt = tempfile.mkdtemp(prefix=f'vs-{prop}-{rnd}{x}-')
     os.rmdir(wt)
-    rc, out = sh(f'git -C /repo worktree add -q {wt} HEAD')
+    BASE = sys.argv[sys.argv.index('--base') + 1] if '--base' in sys.argv else 'HEAD'
+    rc, out = sh(f'git -C /repo worktree add -q {wt} {BASE}')
     assert rc == 0, out
     meta = {'id': sid, 'round': int(rnd), 'property': prop, 'source': 'independent sub-agent given only the property text and a scratch worktree'}
     try:
